@@ -101,11 +101,15 @@ def witness_ping(rng, B, batch, nrows, kind="text", sql=b"SELECT a FROM t"):
         else:
             a.feed(cl.frame(bytes([cl.COM_STMT_PREPARE]) + sql, 0))
             sid = cl.split_raw(a.take())[0][1][1:5]
-            cursor = 1 if kind == "fetch" else 0
+            cursor = 1 if kind.startswith("fetch") else 0
             a.reader.feed_data(cl.frame(bytes([cl.COM_STMT_EXECUTE]) + sid + bytes([cursor]) + (1).to_bytes(4, "little"), 0))
             if kind == "fetch":
                 env.settle(); a.take()
                 a.reader.feed_data(cl.frame(bytes([cl.COM_STMT_FETCH]) + sid + (nrows + 1).to_bytes(4, "little"), 0))
+            if kind == "fetch-pipelined":
+                # many small fetches already waiting in the socket: no fetch is large enough to reach the batch size by itself
+                env.settle(); a.take()
+                a.reader.feed_data(b"".join(cl.frame(bytes([cl.COM_STMT_FETCH]) + sid + (700).to_bytes(4, "little"), 0) for _ in range(nrows // 700 + 1)))
         start = pulled[0]
         b.reader.feed_data(cl.frame(bytes([cl.COM_PING]), 0))
         its = 0
@@ -176,7 +180,7 @@ def run(ctx: core.Ctx):
     # (through the real Session: the statement passes the whole middleware chain - also with an optimizer hint, which makes
     #  _set_var_middleware wrap the rest of the chain)
     for sql in (b"SELECT a FROM t", b"SELECT /*+ SET_VAR(max_execution_time = 1000) */ a FROM t", b"SELECT a FROM t WHERE b = @@sql_mode"):
-        for kind in ("text", "binary", "fetch"):
+        for kind in ("text", "binary", "fetch", "fetch-pipelined"):
             n = witness_ping(rng, 32768, 10000, 35000, kind, sql)
             at = max(at, n)
             ctx.evals += 1
